@@ -9,6 +9,7 @@ Monitored on the real code, not proved: brace collapsing (re-load of the collaps
 rewriting strategies and the experimental move (DESIGN.md §4 C05).
 -/
 import LithiumProofs.PairsMove
+import LithiumProofs.CollapseFrame
 import LithiumProofs.Frame
 import LithiumProofs.MinimizeLog
 import LithiumProofs.Load
@@ -130,6 +131,16 @@ example :
       = [(2, [[0x7B], [0x61]], .rejected), (1, [[0x61]], .rejected), (9, [[0x7B], [0x7D], [0x61]], .rejected),
          (9, [[0x61], [0x7B], [0x7D]], .accepted), (2, [[0x7B], [0x7D]], .rejected)] := by
   decide
+
+/-- minimize-collapse-brace: deletions never touch the protected prefix/suffix; the only step that can is
+the re-load of a collapsed text.  IF re-loading `before ++ x ++ after` finds the same `before` and
+`after` again (for every region text `x` the run produces), every proposal — deletions and collapsed
+texts — and the final best keep them, for every test, clock and option setting.  The hypothesis is
+exactly what the recorded finding below violates. -/
+theorem C05_frame_collapse_cond (reload : Bytes → Option Testcase) (cfg : Cfg) (o : Oracle) (clk : Clock) (t : Testcase)
+    (hre : ∀ x t', reload (t.before ++ x ++ t.after) = some t' → t'.before = t.before ∧ t'.after = t.after) :
+    Frame t (collapse reload cfg o clk t) :=
+  collapse_frame reload cfg o clk t hre
 
 /-- The recorded finding `collapse-reload-boundary` as a theorem about the model: symbol atoms, a DDEND
 line that starts with the continuation bytes `80 A8`, and a verdict sequence under which `}y\n` is
